@@ -14,7 +14,7 @@ Monitors on the implementation alone (no model involved):
          (text equality dis(asm(dis p)) == dis(p) does NOT hold for non-canonical p — `arg 1` comes back as arg_1 — and is
          compared with the model's prediction instead);
       M3 no PANIC."""
-import os
+import os, re
 import common
 import vf
 
@@ -83,6 +83,25 @@ def monitor(op, res):
     return None
 
 
+KNOWN_PSEUDO = {"kind": "explicit-const-index-with-pseudo-constants"}
+_PSEUDO = re.compile(r"(^|[;\n])\s*(\S+:\s*)?(int|byte|addr|method)\s")
+_EXPLICIT = re.compile(r"(^|[;\n])\s*(\S+:\s*)?(intc|bytec)\s+(0x[0-9a-fA-F]+|\d+)")
+
+
+def known_shape(op, res, detail):
+    """the recorded KNOWN finding: a source mixing int/byte/addr/method pseudo-op constants with an explicit intc/bytec index
+    assembles, but the constant-block optimiser removes or reorders the constants the index names, so re-assembling the
+    disassembly stops at `intc N is not defined`"""
+    if not op.startswith("src ") or " re=ERR" not in res or "is not defined" not in (detail or ""):
+        return False
+    try:
+        text = bytes.fromhex(op.split()[2]).decode(errors="replace")
+    except (ValueError, IndexError):
+        return False
+    text = "\n".join(l.split("//")[0] for l in text.splitlines())
+    return bool(_PSEUDO.search(text)) and bool(_EXPLICIT.search(text))
+
+
 def trivial(op):
     f = op.split()
     if f[0] == "prog":
@@ -133,8 +152,15 @@ def run(ctx, replay_ops=None):
                        "from the real per-version tables (non-minimal varints, explicit-index constant loads, valid and 1% misaligned "
                        "targets) and byte-level mutants of assembled programs, kept when the real check passes (1 in 5 otherwise). "
                        "Every assembled prog/src yields a derived `code asm` line. Trivial = empty programs; distinct = distinct op lines")
+    known_ops = set()
+
+    def mon_hit(op, res):
+        return None if op in known_ops else monitor(op, res)
+
+    # the monitor runs after the correspondence (below): the known shape is recognised from the side file (error text)
+    # and the source text, which common.correspondence does not see
     res = common.correspondence(ctx, pkg=PKG, test="TestVerifC33", name="c33", drivers=[("c33", [], "model")],
-                                trivial=trivial, kind_of=kind_of, env=env, model_is_spec=False, monitor=monitor, timeout=3000,
+                                trivial=trivial, kind_of=kind_of, env=env, model_is_spec=False, monitor=None, timeout=3000,
                                 what="real assembler / disassembler / static check differs from Model.AsmFormat",
                                 replay_ops=replay_ops)
     if res is None:
@@ -150,6 +176,18 @@ def run(ctx, replay_ops=None):
     dist["prog/code lines the model skipped"] = skipped
     hits = 0
     h = {"pkg": PKG, "test": "TestVerifC33", "name": "c33"}
+    prev_known = None
+    for op, r, m in zip(ops, impl, mon):
+        if known_shape(op, r, m):
+            known_ops.add(op)
+            prev_known = fields_of(r).get("asm")
+            ctx.violation("known: explicit constant index into pseudo-op constants does not survive the round trip",
+                          {"kind": "monitor", "ops": [op], "impl_out": r, "detail": m, "harness": h}, found_input=True,
+                          match_key=KNOWN_PSEUDO)
+        elif prev_known and op.startswith("code asm ") and op.split()[-1] == prev_known:
+            known_ops.add(op)       # the derived bytecode line of that source
+        else:
+            prev_known = None
     for op, r, m in zip(ops, impl, mon):
         d = fields_of(r)
         k = kind_of(op)
@@ -163,10 +201,10 @@ def run(ctx, replay_ops=None):
                 re_ = "canonicalised"
             key = "%s chk=%s re=%s" % (k, d.get("chk"), re_ if d.get("dis") != "ERR" else "dis-ERR")
         dist[key] = dist.get(key, 0) + 1
-        hit = monitor(op, r)
+        hit = mon_hit(op, r)
         if hit:
             hits += 1
-            if 1 < hits <= 4:      # the first one was reported by common.correspondence
+            if hits <= 4:
                 ctx.violation("monitor: " + hit, {"kind": "monitor", "ops": [op], "impl_out": r, "detail": m, "harness": h},
                               found_input=True)
     if hits > 4:
